@@ -61,10 +61,15 @@ impl<K: Clone + PartialEq + Eq + Hash + std::fmt::Debug + std::cmp::PartialOrd, 
         Arc::clone(entry)
     }
 
-    /// Drop an entry which was put into wmap but could not be populated
-    pub(crate) fn remove_from_wmap(&self, key: &K) {
+    /// Drop an entry which was put into wmap but could not be populated.
+    ///
+    /// By identity, not by key alone: after this entry has been dropped
+    /// another task may have put a fresh one in for the same key.
+    pub(crate) fn remove_from_wmap(&self, key: &K, entry: &AsyncLruCacheEntry<V>) {
         let mut w = self.wmap.lock().unwrap();
-        w.remove(key);
+        if w.get(key).is_some_and(|e| Arc::ptr_eq(e, entry)) {
+            w.remove(key);
+        }
     }
 
     /// Put evicted entries back (their write-back failed, so the cache
@@ -89,10 +94,24 @@ impl<K: Clone + PartialEq + Eq + Hash + std::fmt::Debug + std::cmp::PartialOrd, 
     /// Only this one: the other entries in wmap are still being loaded by
     /// their owners. Published early they look like valid slices to every
     /// lookup, and stay in the cache as empty slices if their load fails.
-    pub(crate) fn commit_wmap(&self, key: &K) -> Option<Vec<(K, AsyncLruCacheEntry<V>)>> {
+    pub(crate) fn commit_wmap(
+        &self,
+        key: &K,
+        entry: &AsyncLruCacheEntry<V>,
+    ) -> Option<Vec<(K, AsyncLruCacheEntry<V>)>> {
         let mut w = self.wmap.lock().unwrap();
         let mut r = self.rmap.write().unwrap();
-        let populated = w.remove(key);
+        // The entry under this key may be someone else's by now (ours was
+        // dropped after a failed load and a new one put in, which its owner
+        // is still loading): publish what the caller has populated, never
+        // what merely sits under the same key.
+        let populated = if w.get(key).is_some_and(|e| Arc::ptr_eq(e, entry)) {
+            w.remove(key)
+        } else if !w.contains_key(key) && !r.contains_key(key) {
+            Some(Arc::clone(entry))
+        } else {
+            None
+        };
         let mut vec = Vec::new();
 
         let wlen = populated.is_some() as usize;
